@@ -420,6 +420,7 @@ class Lower:
             if e is None: return 'void'
             t = qt(e['type'])
             if e.get('valueCategory') == 'lvalue' and r != 'auto': t += ' &'
+            elif e.get('valueCategory') == 'xvalue' and r.startswith('decltype(') and r != 'decltype(auto)': t += ' &&'   # decltype(f(...)) of a call returning T&&
             return t
         return r
 
